@@ -1,6 +1,6 @@
 (* Codec/BatchCutProofs.v — the batch decoder (Codec/Batch.v) off the happy path: on a CUT encoding
-   (exactly which error, after exactly which records), on ARBITRARY bytes below the int64 wrap (total),
-   and above it (the witnesses: a loop that never advances, negative indexes).  Proof file. *)
+   (exactly which error, after exactly which records), on ARBITRARY bytes (total), and the witnesses of what
+   the decoder did before fix d912a49 (a loop that never advances, negative indexes).  Proof file. *)
 From GL Require Import Base.Bytes Base.BytesProofs Base.Varint Base.VarintProofs Codec.IKey Codec.Batch Codec.BatchProofs.
 From Coq Require Import Arith ZArith Lia ZifyN ZifyNat ZifyBool.
 Open Scope N_scope.
@@ -61,15 +61,16 @@ Section Cut.
     - unfold q. rewrite takeN_app_ge by lia. unfold vk at 1.
       rewrite uvarint_put by (change (2 ^ 64) with 18446744073709551616; lia).
       fold vk. cbv zeta.
-      rewrite int_of_u64_small by (change (2 ^ 63) with 9223372036854775808; lia).
       set (o2 := (Z.of_N (lenN pre) + 1 + Z.of_N (lenN vk))%Z).
-      rewrite (int64_small (o2 + Z.of_N (lenN k))) by (unfold two63, o2; lia).
+      rewrite (u64_of_int_small (zlen data - o2)) by (unfold zlen, two64, o2; lia).
       destruct (N.ltb_spec (m - 1 - lenN vk) (lenN k)) as [HB|HB].
       + (* inside the key *)
-        replace (zlen data <? o2 + Z.of_N (lenN k))%Z with true by (unfold zlen, o2; lia).
+        replace (Z.to_N (zlen data - o2) <? lenN k) with true by (unfold zlen, o2; lia).
         replace (m <? 1 + lenN vk + lenN k) with true by lia. reflexivity.
       + (* after the key: a value record cut in its value part *)
-        replace (zlen data <? o2 + Z.of_N (lenN k))%Z with false by (unfold zlen, o2; lia).
+        replace (Z.to_N (zlen data - o2) <? lenN k) with false by (unfold zlen, o2; lia).
+        rewrite int_of_u64_small by (change (2 ^ 63) with 9223372036854775808; lia).
+        rewrite (int64_small (o2 + Z.of_N (lenN k))) by (unfold two63, o2; lia).
         replace (m <? 1 + lenN vk + lenN k) with false by lia.
         unfold tailv in *. clear tailv.
         destruct (kt =? keyTypeVal p) eqn:Ekt; [|rewrite lenN_nil in Hm; lia].
@@ -94,9 +95,8 @@ Section Cut.
         * rewrite takeN_app_ge by lia. unfold vv at 1.
           rewrite uvarint_put by (change (2 ^ 64) with 18446744073709551616; lia).
           fold vv.
-          rewrite int_of_u64_small by (change (2 ^ 63) with 9223372036854775808; lia).
-          rewrite (int64_small (o2 + Z.of_N (lenN k) + Z.of_N (lenN vv) + Z.of_N (lenN v))) by (unfold two63, o2; lia).
-          replace (zlen data <? o2 + Z.of_N (lenN k) + Z.of_N (lenN vv) + Z.of_N (lenN v))%Z with true
+          rewrite (u64_of_int_small (zlen data - (o2 + Z.of_N (lenN k) + Z.of_N (lenN vv)))) by (unfold zlen, two64, o2, j in *; lia).
+          replace (Z.to_N (zlen data - (o2 + Z.of_N (lenN k) + Z.of_N (lenN vv))) <? lenN v) with true
             by (unfold zlen, o2, j in *; lia).
           reflexivity.
   Qed.
@@ -183,22 +183,19 @@ Section Cut.
       apply L. lia.
   Qed.
 
-  (* ---------------- arbitrary bytes below the int64 wrap ---------------- *)
-  (* no length field of the data, read at any offset, reaches past 2^63 together with the data's length *)
-  Definition small_lens (data : bytes) : Prop :=
-    forall o, o <= lenN data ->
-      match uvarint (dropN o data) with UvOk x _ => x + lenN data < 2 ^ 63 | _ => True end.
-
+  (* ---------------- arbitrary bytes ---------------- *)
   Definition dres_fine {A} (r : dres A) : Prop :=
     match r with DOk _ | DErr _ _ => True | _ => False end.
 
+  (* the only condition is that the data is a byte string a Go slice can hold: len(data) is an int *)
   Lemma decode_total_loop A (fn : A -> Z -> bidx -> cbres A) data :
-    small_lens data ->
+    lenN data < 2 ^ 63 ->
     (forall a i ix, match fn a i ix with CbOk _ | CbErr _ _ => True | _ => False end) ->
     forall fuel i o a, (0 <= o <= zlen data)%Z -> (Z.to_nat (zlen data - o) < fuel)%nat ->
     dres_fine (decode_loop p fuel data fn i o a).
   Proof.
-    intros Hs Hfn. induction fuel as [|f IH]; intros i o a Ho Hf; [lia|].
+    intros Hl Hfn. change (2 ^ 63) with 9223372036854775808 in Hl.
+    induction fuel as [|f IH]; intros i o a Ho Hf; [lia|].
     rewrite decode_loop_S.
     destruct (Z.ltb_spec o (zlen data)) as [Hlt|Hge]; [|exact I].
     unfold zlen in *.
@@ -210,36 +207,33 @@ Section Cut.
     destruct (keyTypeVal p <? kt); [exact I|].
     replace (o + 1)%Z with (Z.of_N (Z.to_N o + 1)) by lia.
     rewrite zdrop_ok by lia.
-    pose proof (Hs (Z.to_N o + 1)) as S1.
     destruct (uvarint (dropN (Z.to_N o + 1) data)) as [x n| |] eqn:U; try exact I.
-    specialize (S1 ltac:(lia)).
     unfold uvarint in U. apply uvarint_f_ok_bounds in U. rewrite lenN_dropN in U.
-    cbv zeta. change (2 ^ 63) with 9223372036854775808 in S1.
+    cbv zeta.
+    rewrite u64_of_int_small by (unfold two64; lia).
+    match goal with |- context [?a <? x] => destruct (N.ltb_spec a x) as [Hbig|Hfit] end; [exact I|].
     rewrite int_of_u64_small by (change (2 ^ 63) with 9223372036854775808; lia).
     rewrite int64_small by (unfold two63; lia).
-    set (o3 := (Z.of_N (Z.to_N o + 1) + Z.of_N n + Z.of_N x)%Z).
-    destruct (Z.ltb_spec (Z.of_N (lenN data)) o3) as [Hbig|Hfit]; [exact I|].
+    set (o3 := (Z.of_N (Z.to_N o + 1) + Z.of_N n + Z.of_N x)%Z) in *.
     destruct (kt =? keyTypeVal p).
     - replace o3 with (Z.of_N (Z.to_N o3)) by (unfold o3; lia).
       rewrite zdrop_ok by (unfold o3 in *; lia).
-      pose proof (Hs (Z.to_N o3)) as S2.
       destruct (uvarint (dropN (Z.to_N o3) data)) as [y m| |] eqn:U2; try exact I.
-      specialize (S2 ltac:(unfold o3 in *; lia)).
       unfold uvarint in U2. apply uvarint_f_ok_bounds in U2. rewrite lenN_dropN in U2.
-      change (2 ^ 63) with 9223372036854775808 in S2.
-      rewrite int_of_u64_small by (change (2 ^ 63) with 9223372036854775808; lia).
+      rewrite u64_of_int_small by (unfold two64, o3 in *; lia).
+      match goal with |- context [?a <? y] => destruct (N.ltb_spec a y) as [Hb2|Hf2] end; [exact I|].
+      rewrite int_of_u64_small by (change (2 ^ 63) with 9223372036854775808; unfold o3 in *; lia).
       rewrite int64_small by (unfold two63, o3 in *; lia).
-      match goal with |- context [(Z.of_N (lenN data) <? ?e)%Z] => destruct (Z.ltb_spec (Z.of_N (lenN data)) e) as [Hb2|Hf2] end;
-        [exact I|].
       match goal with |- context [fn a i ?ix] => pose proof (Hfn a i ix) as F; destruct (fn a i ix) end; try exact I; try contradiction.
       apply IH; unfold zlen, o3 in *; lia.
     - match goal with |- context [fn a i ?ix] => pose proof (Hfn a i ix) as F; destruct (fn a i ix) end; try exact I; try contradiction.
       apply IH; unfold zlen, o3 in *; lia.
   Qed.
 
-  (* Batch.Load on arbitrary bytes none of whose length fields wraps the offset: a batch or an error,
-     never a panic, and the fuel len(data)+1 is never exhausted *)
-  Theorem load_total data : small_lens data ->
+  (* ---------------- C01_batch_decode_total ---------------- *)
+  (* Batch.Load on ARBITRARY bytes: a batch or a corruption error, never a panic (every index and slice
+     expression is in range), and the fuel len(data)+1 is never exhausted (the loop terminates) *)
+  Theorem load_total data : lenN data < 2 ^ 63 ->
     (exists b, batch_load p data = DOk b) \/ (exists e b, batch_load p data = DErr e b).
   Proof.
     intros Hs. unfold batch_load, batch_decode.
@@ -253,15 +247,62 @@ Section Cut.
       exists b. reflexivity.
     - right. exists e, b. reflexivity.
   Qed.
-
-  (* and more fuel never changes an answer that is not OutOfFuel *)
 End Cut.
 
-(* ------------------------------------------------------------------ above the wrap: witnesses *)
-(* keyTypeDel, key length 2^64-11 as a ten-byte uvarint: int(x) = -11, o+int(x) = 0 <= len(data) passes the
-   bounds test, keyLen = -11 is recorded, o returns to 0: the loop never advances.  For EVERY amount of fuel
-   the model's loop runs out of it (Go: Batch.Load never returns and its index grows without bound). *)
+(* ------------------------------------------------------------------ the decoder BEFORE fix d912a49: witnesses *)
+(* keyTypeDel, key length 2^64-11 as a ten-byte uvarint: int(x) = -11, the old test o+int(x) = 0 <= len(data)
+   passed, keyLen = -11 was recorded, o returned to 0: the loop never advanced.  For EVERY amount of fuel the
+   old loop runs out of it (Go before the fix: Batch.Load never returned, its index grew without bound). *)
 Definition loop_input : bytes := [0; 245; 255; 255; 255; 255; 255; 255; 255; 255; 1].
+
+Lemma decode_loop_old_S p A f data (fn : A -> Z -> bidx -> cbres A) i o a :
+  decode_loop_old p (S f) data fn i o a =
+  if (o <? zlen data)%Z then
+    match zget data o with
+    | None => DPanic
+    | Some kt =>
+        if keyTypeVal p <? kt then DErr (EBadType kt) a else
+        match zdrop data (o + 1)%Z with
+        | None => DPanic
+        | Some rest =>
+            match uvarint rest with
+            | UvShort | UvOver _ => DErr EKeyLen a
+            | UvOk x n =>
+                let o2 := (o + 1 + Z.of_N n)%Z in
+                let kl := int_of_u64 x in
+                let o3 := int64 (o2 + kl) in
+                if (zlen data <? o3)%Z then DErr EKeyLen a else
+                if kt =? keyTypeVal p then
+                  match zdrop data o3 with
+                  | None => DPanic
+                  | Some rest2 =>
+                      match uvarint rest2 with
+                      | UvShort | UvOver _ => DErr EValLen a
+                      | UvOk y m =>
+                          let o4 := (o3 + Z.of_N m)%Z in
+                          let vl := int_of_u64 y in
+                          let o5 := int64 (o4 + vl) in
+                          if (zlen data <? o5)%Z then DErr EValLen a else
+                          match fn a i (mkidx kt o2 kl o4 vl) with
+                          | CbOk a' => decode_loop_old p f data fn (i + 1)%Z o5 a'
+                          | CbErr e a' => DErr e a'
+                          | CbPanic => DPanic
+                          | CbFuel => DFuel
+                          end
+                      end
+                  end
+                else
+                  match fn a i (mkidx kt o2 kl 0%Z 0%Z) with
+                  | CbOk a' => decode_loop_old p f data fn (i + 1)%Z o3 a'
+                  | CbErr e a' => DErr e a'
+                  | CbPanic => DPanic
+                  | CbFuel => DFuel
+                  end
+            end
+        end
+    end
+  else DOk a.
+Proof. reflexivity. Qed.
 
 Section Witness.
   Variable p : kparams.
@@ -269,11 +310,11 @@ Section Witness.
   Hypothesis val1 : keyTypeVal p = 1.
 
   Lemma loop_input_step f i b :
-    decode_loop p (S f) loop_input decode_cb i 0%Z b =
-    decode_loop p f loop_input decode_cb (i + 1)%Z 0%Z
+    decode_loop_old p (S f) loop_input decode_cb i 0%Z b =
+    decode_loop_old p f loop_input decode_cb (i + 1)%Z 0%Z
       (mkbatch (b_data b) (b_index b ++ [mkidx 0 11%Z (-11)%Z 0%Z 0%Z]) (int64 (b_ilen b + (-11 + 0 + 8)))%Z).
   Proof.
-    rewrite decode_loop_S. rewrite val1.
+    rewrite decode_loop_old_S. rewrite val1.
     change (0 <? zlen loop_input)%Z with true. change (zget loop_input 0%Z) with (Some 0).
     change (1 <? 0) with false. cbv iota.
     change (zdrop loop_input (0 + 1)%Z) with (Some [245; 255; 255; 255; 255; 255; 255; 255; 255; 1]).
@@ -288,7 +329,7 @@ Section Witness.
   Qed.
 
   Theorem loop_input_never_ends : forall fuel i b,
-    decode_loop p fuel loop_input decode_cb i 0%Z b = DFuel.
+    decode_loop_old p fuel loop_input decode_cb i 0%Z b = DFuel.
   Proof.
     induction fuel as [|f IH]; intros i b; [reflexivity|].
     rewrite loop_input_step. apply IH.
